@@ -586,8 +586,30 @@ func (c *ctx) focusedErrors(n int) {
 			}
 		}
 		in := bad
+		expectField := g
+		// alternatively the truncation is in an enclosing message: its declared length exceeds what
+		// is there, and the error must name the MESSAGE field
+		cutLevel := -1
+		if truncated && depth > 0 && r.Intn(2) == 0 {
+			cutLevel = r.Intn(depth)
+			in = refScalarOK(k, r)
+			in = append(refwire.AppendTag(nil, refwire.Number(g), refWireType(k)), in...)
+		}
 		for d := depth - 1; d >= 0; d-- {
+			if d == cutLevel {
+				hdr := refwire.AppendTag(nil, refwire.Number(outer[d]), refwire.BytesType)
+				hdr = refwire.AppendVarint(hdr, uint64(len(in)+1+r.Intn(5)))
+				in = append(hdr, in...)
+				expectField = outer[d]
+				continue
+			}
 			in = refwire.AppendBytes(refwire.AppendTag(nil, refwire.Number(outer[d]), refwire.BytesType), in)
+		}
+		if cutLevel >= 0 && expectField != g {
+			// ambiguous when the two numbers coincide textually; keep them apart
+			if outer[cutLevel] == g {
+				continue
+			}
 		}
 		c.rep.Evaluations++
 		var errText string
@@ -614,8 +636,14 @@ func (c *ctx) focusedErrors(n int) {
 			c.disagree(Disagreement{Kind: "panic", Check: "decoder-program", Case: cs, Got: map[string]string{"real": p}})
 			continue
 		}
-		if !strings.Contains(errText, fmt.Sprintf("parsing %d:", g)) || len(errText) < len(fmt.Sprintf("parsing %d: x", g)) {
+		cs["expected_field"] = fmt.Sprint(expectField)
+		if !strings.Contains(errText, fmt.Sprintf("parsing %d:", expectField)) || len(errText) < len(fmt.Sprintf("parsing %d: x", expectField)) {
 			c.disagree(Disagreement{Kind: "error-text", Check: "error-names-field", Case: cs, Got: map[string]string{"error": errText}})
 		}
 	}
+}
+
+// refScalarOK: a complete, valid value of the kind (without tag)
+func refScalarOK(k int, r interface{ Intn(int) int }) []byte {
+	return refScalar(k, uint64(1+r.Intn(100)), []byte("ab"))
 }
